@@ -44,6 +44,10 @@ T["C08"] = ("finite-difference oracle monitor on every Greek of every BS module/
             "delta/gamma/vega/theta of the four pricing modules and of the functional forms are compared with 4th-order Richardson central differences of the same "
             "object's float64 price over sweeps dominated by t != 1 and K != 1 (incl. barrier already reached with the spot back below); the automatic Greeks are run on "
             "randomly parameterised smooth pricers under every accepted parameterisation. Points where two FD step sizes disagree are skipped and counted.", "4 C08")
+T["C19"] = ("bracketing-condition postcondition on every bisect call + closed-form-inverse and implied-volatility round-trip monitors",
+            "Every call of bisect (all aliases, incl. those made by quadratic_cvar, HedgeLoss.cash and implied_volatility) is judged on the real function: result inside the "
+            "bracket, a root within precision (direction-aware, noise-aware), evaluation count bounded by max_iter, RuntimeError only when precision is unreachable; analytic "
+            "monotone families are compared with their closed-form inverse and implied volatility is round-tripped for the four modules. One known finding (python-float brackets searched in float32).", "4 C19")
 NA = {}
 
 def main():
